@@ -6,6 +6,7 @@ import WhatIs.Oracle.C15
 import WhatIs.Oracle.C13
 import WhatIs.Oracle.C07
 import WhatIs.Oracle.C10
+import WhatIs.Oracle.C18
 /-
   Main.lean — model driver (core-only lean_exe).  Reads case lines
      <op> <args...> => <impl result>
@@ -20,7 +21,7 @@ def splitArrow (line : String) : String × String :=
   | [] => ("", "")
 
 def handlers : List (String → List String → String → Option (String × String)) :=
-  [Oracle.C14.handle, Oracle.C20.handle, Oracle.C17.handle, Oracle.C16.handle, Oracle.C15.handle, Oracle.C13.handle, Oracle.C07.handle, Oracle.C10.handle]
+  [Oracle.C14.handle, Oracle.C20.handle, Oracle.C17.handle, Oracle.C16.handle, Oracle.C15.handle, Oracle.C13.handle, Oracle.C07.handle, Oracle.C10.handle, Oracle.C18.handle]
 
 def dispatch (op : String) (args : List String) (impl : String) : String :=
   match handlers.findSome? (fun h => h op args impl) with
